@@ -316,9 +316,9 @@ def _krax(prog: Program, res: Result) -> None:
         res.ok("KRAX", short, desc, prog.loc(fi, loop[-1]))
     # start from the first (after optional reversal) matrix
     desc = "the fold starts from the first matrix and visits the others in order"
-    it = ast.unparse(loop[-1].iter)
+    it = fi.rtext(loop[-1].iter)           # named slices (`rest = matrices[1:]`) read as their definition
     start = [a for a in ast.walk(fi.node) if isinstance(a, ast.Assign) and isinstance(a.targets[0], ast.Name) and a.targets[0].id == acc_name]
-    if start and ast.unparse(start[0].value).endswith("[0]") and it.endswith("[1:]"):
+    if start and fi.rtext(start[0].value).endswith("[0]") and it.endswith("[1:]"):
         res.ok("KRAX", short, desc, prog.loc(fi, loop[-1]), nontrivial=False)
     else:
         res.undecided("KRAX", short, desc, prog.loc(fi, loop[-1]), f"start {ast.unparse(start[0].value) if start else None}, iterate {it}")
